@@ -194,8 +194,8 @@ func elemKey(elem types.Type) string { return "Elem_" + typeKey(elem) }
 // element access of a slice backing array (abs = absolute index incl. offset)
 func (vc *VC) loadElem(st *State, arr, abs T, elem types.Type) Val {
 	elem = types.Unalias(elem)
-	if s, ok := leafSort(elem); ok && s != SInt && s != SBool && structOf(elem) == nil {
-		return vc.freshVal(elem, "el") // slices of arrays: contents abstracted
+	if s, ok := leafSort(elem); ok && s != SInt && s != SBool && s != SArrII && s != SArrIB && structOf(elem) == nil {
+		return vc.freshVal(elem, "el") // deeper nesting: contents abstracted
 	}
 	if structOf(elem) != nil {
 		return vc.loadStructAt(st, vc.elemAddr(elem, arr, abs), elem)
@@ -223,8 +223,8 @@ func (vc *VC) loadElem(st *State, arr, abs T, elem types.Type) Val {
 
 func (vc *VC) storeElem(st *State, arr, abs T, elem types.Type, v Val) {
 	elem = types.Unalias(elem)
-	if s, ok := leafSort(elem); ok && s != SInt && s != SBool && structOf(elem) == nil {
-		return // slices of arrays: contents abstracted
+	if s, ok := leafSort(elem); ok && s != SInt && s != SBool && s != SArrII && s != SArrIB && structOf(elem) == nil {
+		return // deeper nesting: contents abstracted
 	}
 	if structOf(elem) != nil {
 		vc.storeStructAt(st, vc.elemAddr(elem, arr, abs), elem, v)
@@ -304,6 +304,20 @@ func (vc *VC) load(st *State, p Val, typ types.Type) Val {
 		case PField:
 			return vc.loadField(st, x.Base, x.ST, x.FI)
 		case PElem:
+			if x.Sub != nil {
+				// element of a small array stored as one slice/array element
+				if av, ok := vc.loadElem(st, x.Base, *x.Idx, x.Elem).(T); ok && (av.Sort == SArrII || av.Sort == SArrIB) {
+					e := Sel(av, *x.Sub)
+					if av.Sort == SArrII && vc.inQuant == 0 {
+						n := vc.fresh("ae", SInt)
+						vc.assert(Eq(n, e))
+						vc.typeAssume(n, typ)
+						return n
+					}
+					return e
+				}
+				return vc.freshVal(typ, "subelem")
+			}
 			return vc.loadElem(st, x.Base, *x.Idx, x.Elem)
 		case PGlobal:
 			if s, ok := leafSort(typ); ok {
@@ -361,6 +375,16 @@ func (vc *VC) store(st *State, p Val, typ types.Type, v Val) {
 			vc.storeField(st, x.Base, x.ST, x.FI, v)
 			return
 		case PElem:
+			if x.Sub != nil {
+				av, ok := vc.loadElem(st, x.Base, *x.Idx, x.Elem).(T)
+				vt, ok2 := v.(T)
+				if ok && ok2 && (av.Sort == SArrII || av.Sort == SArrIB) && vt.Sort == elemOf(av.Sort) {
+					vc.storeElem(st, x.Base, *x.Idx, x.Elem, Sto(av, *x.Sub, vt))
+				} else {
+					vc.storeElem(st, x.Base, *x.Idx, x.Elem, vc.freshVal(x.Elem, "subelem"))
+				}
+				return
+			}
 			vc.storeElem(st, x.Base, *x.Idx, x.Elem, v)
 			return
 		case PGlobal:
